@@ -652,6 +652,93 @@ Proof.
     rewrite (p_sort_eq _ _ _ _ _ (nid_ws1 o Ho _) Hby (desc_mode desc k Hk)).
     rewrite map_snd_src. destruct desc; reflexivity.
 Qed.
+
+(** ** the same with any spelling [m] of the direction: nothing, or whitespace and one of the words *)
+Definition mode_words : list (String.string * bool) :=
+  [("asc", false); ("ascending", false); ("desc", true); ("dsc", true); ("descending", true)].
+Definition mode_text_ok (m : str) (desc : bool) : Prop :=
+  (m = [] /\ desc = false) \/ exists wd, In (wd, desc) mode_words /\ m = po_ws1 o ++ lit wd.
+
+Lemma mode_fol m desc k : mode_text_ok m desc -> kstop k -> fol 0 (m ++ k).
+Proof.
+  intros [[-> _]|(wd & Hin & ->)] Hk; [now apply kstop_fol|]. rewrite <- app_assoc.
+  apply fol_ws1; [now apply Hw1ne|now apply Hw1|].
+  cbn [mode_words In] in Hin.
+  repeat (destruct Hin as [Hin|Hin]; [injection Hin as <- _; repeat split; intros; vm_compute; reflexivity|]).
+  destruct Hin.
+Qed.
+
+Lemma mode_no_comma m desc k : mode_text_ok m desc -> kstop k -> ptag "," (skip_spaces (m ++ k)) = PFail.
+Proof.
+  intros [[-> _]|(wd & Hin & ->)] Hk; [now apply kstop_no_comma|]. rewrite <- app_assoc.
+  cbn [mode_words In] in Hin.
+  repeat (destruct Hin as [Hin|Hin];
+          [injection Hin as <- _; rewrite skip_ws_nsp by (now apply Hw1 || reflexivity); reflexivity|]).
+  destruct Hin.
+Qed.
+
+Lemma mode_mode m desc k : mode_text_ok m desc -> kstop k ->
+  exists md, sort_mode_p (m ++ k) = POk md k /\ match md with Some d => d | None => false end = desc.
+Proof.
+  intros [[-> ->]|(wd & Hin & ->)] Hk.
+  - exists None. split; [now apply sort_mode_kstop|reflexivity].
+  - exists (Some desc). split; [|reflexivity]. unfold sort_mode_p. rewrite <- app_assoc.
+    destruct (Spelling_proofs.sort_mode_synonyms k (kstop_nid _ Hk)) as (E1 & E2 & E3 & E4 & E5).
+    cbn [mode_words In] in Hin.
+    repeat (destruct Hin as [Hin|Hin];
+            [injection Hin as <- <-;
+             rewrite Roundtrip_proofs.ms1_ws by (now apply Hw1ne || now apply Hw1 || reflexivity);
+             first [rewrite E1|rewrite E2|rewrite E3|rewrite E4|rewrite E5]; reflexivity|]).
+    destruct Hin.
+Qed.
+
+Lemma mode_no_by m desc k : mode_text_ok m desc -> kstop k ->
+  popt (word_then "by" sourced_expr_list) (m ++ k) = POk None (m ++ k).
+Proof.
+  intros [[-> _]|(wd & Hin & ->)] Hk; unfold popt.
+  - cbn [app]. now rewrite (word_then_kstop "by" 98%N sourced_expr_list k Hk eq_refl eq_refl).
+  - rewrite <- app_assoc. unfold word_then. cbn [mode_words In] in Hin.
+    repeat (destruct Hin as [Hin|Hin];
+            [injection Hin as <- _;
+             rewrite Roundtrip_proofs.ms1_ws by (now apply Hw1ne || now apply Hw1 || reflexivity); reflexivity|]).
+    destruct Hin.
+Qed.
+
+Lemma mode_nid m desc k : mode_text_ok m desc -> kstop k -> nid (m ++ k) = true.
+Proof.
+  intros [[-> _]|(wd & Hin & ->)] Hk; [now apply kstop_nid|]. rewrite <- app_assoc. now apply nid_ws1.
+Qed.
+
+Lemma sort_rt_gen keys desc m k : forallb wf_expr keys = true -> kstop k -> mode_text_ok m desc ->
+  p_oper ((lit "sort" ++ (match keys with [] => []
+                          | _ => po_ws1 o ++ lit "by" ++ po_ws1 o ++ sep_join (comma o) (map (pp o 0) keys) end)
+           ++ m) ++ k) = POk (LSort keys desc) (skip_spaces k).
+Proof.
+  intros Hwf Hk Hm.
+  rewrite <- !app_assoc.
+  match goal with |- p_oper (_ ++ ?R) = _ => set (rest := R) end.
+  destruct (sort_text_fail rest) as [Hi Hma].
+  apply (p_oper_sort (lit "sort" ++ rest) _ _ eq_refl Hi Hma). subst rest.
+  destruct (mode_mode m desc k Hm Hk) as (md & Hmd & Emd).
+  destruct keys as [|e es].
+  - cbn [app]. rewrite (p_sort_eq _ None _ _ _ (mode_nid m desc k Hm Hk) (mode_no_by m desc k Hm Hk) Hmd).
+    now rewrite Emd.
+  - rewrite <- !app_assoc.
+    assert (Hby : popt (word_then "by" sourced_expr_list)
+                    (po_ws1 o ++ lit "by" ++ po_ws1 o ++ sep_join (comma o) (map (pp o 0) (e :: es)) ++ m ++ k)
+                  = POk (Some (map (fun e => (pp o 0 e, e)) (e :: es))) (m ++ k)).
+    { unfold popt, word_then.
+      assert (Hnsp : nsp (sep_join (comma o) (map (pp o 0) (e :: es)) ++ m ++ k)).
+      { cbn [map]. rewrite sep_join_tail, <- app_assoc. apply nsp_app. apply nsp_pp.
+        cbn [forallb] in Hwf. now apply andb_true_iff in Hwf as [H _]. }
+      rewrite Roundtrip_proofs.ms1_ws by (now apply Hw1ne || now apply Hw1 || reflexivity). cbn [pbind].
+      unfold ptag. rewrite Roundtrip_proofs.strip_prefix_app. cbn [pbind].
+      rewrite Roundtrip_proofs.ms1_ws by (now apply Hw1ne || now apply Hw1 || exact Hnsp). cbn [pbind].
+      rewrite (sourced_list_ok o Ho (e :: es) _ ltac:(discriminate) Hwf (mode_fol m desc k Hm Hk) (mode_no_comma m desc k Hm Hk)).
+      reflexivity. }
+    rewrite (p_sort_eq _ _ _ _ _ (nid_ws1 o Ho _) Hby Hmd).
+    rewrite map_snd_src. now rewrite Emd.
+Qed.
 End Sort.
 
 (** * field expressions: no operator claims the text *)
@@ -877,50 +964,56 @@ Proof.
   apply (sp_app_none (lit "count_distinct") eq_refl (lit "count") R H eq_refl).
 Qed.
 
-Lemma aggfn_rt f tf x : wf_aggfn f = true -> pct_ok f -> aggfn_text o f = Some tf ->
-  nsp tf /\ exists ps, p_aggfn (tf ++ po_ws1 o ++ x) = POk (LAgg f, ps) (po_ws1 o ++ x).
+(** the continuation [R] of an aggregate function: no identifier character and no `(` first *)
+Lemma aggfn_rt_gen f tf R : wf_aggfn f = true -> pct_ok f -> aggfn_text o f = Some tf ->
+  nid R = true -> eat 40 R = None ->
+  nsp tf /\ exists ps, p_aggfn (tf ++ R) = POk (LAgg f, ps) R
+                        /\ ps = match f with
+                                | FPct q _ => match pct_of q with Some v => pct_string (Z_to_str v) | None => [] end
+                                | _ => []
+                                end.
 Proof.
-  intros Hwf Hp Ht. rewrite p_aggfn_alts.
+  intros Hwf Hp Ht HR H40. rewrite p_aggfn_alts.
   destruct f as [[c|]|e|e|e|e|e|q e]; cbn [wf_aggfn wf_opt] in Hwf.
   - (* count(c) *)
     change (aggfn_text o (FCount (Some c))) with (Some (lit "count" ++ arg_text o c)) in Ht.
-    apply some_inj in Ht. subst tf. split; [reflexivity|]. exists []. rewrite <- app_assoc.
+    apply some_inj in Ht. subst tf. split; [reflexivity|]. exists []. split; [|reflexivity]. rewrite <- app_assoc.
     do 5 apply palt_ok. rewrite palt_fail by (now apply cd_not_count).
     unfold ag_count. rewrite pkw_ok by reflexivity. cbn [pbind]. unfold popt.
     now rewrite (single_arg_ok o Ho c _ Hwf).
   - (* count *)
     change (aggfn_text o (FCount None)) with (Some (lit "count")) in Ht.
-    apply some_inj in Ht. subst tf. split; [reflexivity|]. exists [].
-    do 5 apply palt_ok. rewrite palt_fail by (apply cd_not_count; now apply nid_ws1).
-    unfold ag_count. rewrite pkw_ok by (now apply nid_ws1). cbn [pbind]. unfold popt, single_arg.
-    now rewrite (not40_ws1 o Ho).
+    apply some_inj in Ht. subst tf. split; [reflexivity|]. exists []. split; [|reflexivity].
+    do 5 apply palt_ok. rewrite palt_fail by (apply cd_not_count; exact HR).
+    unfold ag_count. rewrite pkw_ok by exact HR. cbn [pbind]. unfold popt, single_arg.
+    now rewrite H40.
   - (* sum *)
     change (aggfn_text o (FSum e)) with (Some (lit "sum" ++ arg_text o e)) in Ht.
-    apply some_inj in Ht. subst tf. split; [reflexivity|]. exists []. rewrite <- app_assoc.
+    apply some_inj in Ht. subst tf. split; [reflexivity|]. exists []. split; [|reflexivity]. rewrite <- app_assoc.
     apply palt_ok. rewrite palt_fail by alts_fail.
     unfold ag_sum. rewrite pkw_ok by reflexivity. cbn [pbind].
     now rewrite (req_single_arg_ok o Ho e _ Hwf).
   - (* min *)
     change (aggfn_text o (FMin e)) with (Some (lit "min" ++ arg_text o e)) in Ht.
-    apply some_inj in Ht. subst tf. split; [reflexivity|]. exists []. rewrite <- app_assoc.
+    apply some_inj in Ht. subst tf. split; [reflexivity|]. exists []. split; [|reflexivity]. rewrite <- app_assoc.
     do 4 apply palt_ok. rewrite palt_fail by alts_fail.
     unfold ag_min. rewrite pkw_ok by reflexivity. cbn [pbind].
     now rewrite (req_single_arg_ok o Ho e _ Hwf).
   - (* max *)
     change (aggfn_text o (FMax e)) with (Some (lit "max" ++ arg_text o e)) in Ht.
-    apply some_inj in Ht. subst tf. split; [reflexivity|]. exists []. rewrite <- app_assoc.
+    apply some_inj in Ht. subst tf. split; [reflexivity|]. exists []. split; [|reflexivity]. rewrite <- app_assoc.
     do 3 apply palt_ok. rewrite palt_fail by alts_fail.
     unfold ag_max. rewrite pkw_ok by reflexivity. cbn [pbind].
     now rewrite (req_single_arg_ok o Ho e _ Hwf).
   - (* avg *)
     change (aggfn_text o (FAvg e)) with (Some (lit "avg" ++ arg_text o e)) in Ht.
-    apply some_inj in Ht. subst tf. split; [reflexivity|]. exists []. rewrite <- app_assoc.
+    apply some_inj in Ht. subst tf. split; [reflexivity|]. exists []. split; [|reflexivity]. rewrite <- app_assoc.
     rewrite palt_fail by alts_fail.
     unfold ag_avg, Generated.avg_tags. cbn [pkws]. rewrite pkw_ok by reflexivity. cbn [pbind].
     now rewrite (req_single_arg_ok o Ho e _ Hwf).
   - (* count_distinct *)
     change (aggfn_text o (FDistinct e)) with (Some (lit "count_distinct" ++ arg_text o e)) in Ht.
-    apply some_inj in Ht. subst tf. split; [reflexivity|]. exists []. rewrite <- app_assoc.
+    apply some_inj in Ht. subst tf. split; [reflexivity|]. exists []. split; [|reflexivity]. rewrite <- app_assoc.
     do 6 apply palt_ok.
     unfold ag_cd. rewrite pkw_ok by reflexivity. cbn [pbind]. unfold popt.
     now rewrite (arg_list_ok o Ho e _ Hwf).
@@ -928,15 +1021,23 @@ Proof.
     apply andb_true_iff in Hwf as [Hwf _]. destruct Hp as (v & Hv & ->). fold (pct_val v) in *.
     unfold aggfn_text in Ht. rewrite (pct_of_canon v Hv) in Ht.
     apply some_inj in Ht. subst tf. split; [reflexivity|]. exists (pct_string (Z_to_str v)).
+    split; [|now rewrite (pct_of_canon v Hv)].
     rewrite <- !app_assoc. rewrite <- p_aggfn_alts.
-    change (lit "p" ++ Z_to_str v ++ arg_text o e ++ po_ws1 o ++ x)
-      with (112%N :: Z_to_str v ++ arg_text o e ++ po_ws1 o ++ x).
+    change (lit "p" ++ Z_to_str v ++ arg_text o e ++ R)
+      with (112%N :: Z_to_str v ++ arg_text o e ++ R).
     rewrite Spelling_proofs.p_aggfn_p.
-    change (112%N :: Z_to_str v ++ arg_text o e ++ po_ws1 o ++ x)
-      with (lit "p" ++ Z_to_str v ++ arg_text o e ++ po_ws1 o ++ x).
+    change (112%N :: Z_to_str v ++ arg_text o e ++ R)
+      with (lit "p" ++ Z_to_str v ++ arg_text o e ++ R).
     now rewrite (pct_rt v e _ Hv Hwf).
 Qed.
 
+Lemma aggfn_rt f tf x : wf_aggfn f = true -> pct_ok f -> aggfn_text o f = Some tf ->
+  nsp tf /\ exists ps, p_aggfn (tf ++ po_ws1 o ++ x) = POk (LAgg f, ps) (po_ws1 o ++ x).
+Proof.
+  intros Hwf Hp Ht.
+  destruct (aggfn_rt_gen f tf (po_ws1 o ++ x) Hwf Hp Ht (nid_ws1 o Ho x) (not40_ws1 o Ho x)) as (Hn & ps & E & _).
+  split; [exact Hn|]. now exists ps.
+Qed.
 
 Lemma agg_oper_ok n f tf ws rest : wf_aggfn f = true -> pct_ok f -> aggfn_text o f = Some tf ->
   forallb is_space ws = true -> (safe_name n = true -> nid rest = true) ->
@@ -1120,6 +1221,105 @@ Proof.
   - rewrite sep_join_tail, <- !app_assoc. now apply nsp_app.
   - rewrite sep_join_tail, <- !app_assoc. now apply (agg_first_fail (snd nf) tf _ Hwf Hp Etf).
 Qed.
+
+(** ** the same for any way of printing the items: [I nf t] says that [t] is a text of the function [nf];
+    what follows an item ([aend]) neither continues an identifier, nor opens an argument list, nor is an
+    `as` clause *)
+Definition aend (R : str) : Prop :=
+  nid R = true /\ eat 40 R = None /\ ptag "as" (skip_spaces R) = PFail.
+
+Lemma no_as_clause {A} (p : parser A) R : ptag "as" (skip_spaces R) = PFail ->
+  popt (word_then "as" p) R = POk None R.
+Proof.
+  intros H. unfold popt, word_then. destruct (ms1_cases R) as [-> | ->]; [reflexivity|]. cbn [pbind].
+  now rewrite H.
+Qed.
+
+Lemma not40_comma x : eat 40 (comma o ++ x) = None.
+Proof.
+  unfold comma. rewrite <- app_assoc. pose proof (Hw0 o Ho) as Hw. destruct (po_ws0 o) as [|c w]; [reflexivity|].
+  cbn [forallb] in Hw. apply andb_true_iff in Hw as [Hc _]. cbn [app eat].
+  destruct (N.eqb_spec c 40) as [->|]; [discriminate Hc|reflexivity].
+Qed.
+
+Lemma aend_tailt ts rest : aend rest -> aend (tailt o ts ++ rest).
+Proof.
+  intros H. destruct ts as [|t ts]; [exact H|]. cbn [tailt flat_map]. rewrite <- !app_assoc.
+  split; [now apply nid_comma_txt|split; [apply not40_comma|]]. rewrite skip_comma. reflexivity.
+Qed.
+
+Lemma aend_by keys k : kstop k -> aend (by_text keys ++ k).
+Proof.
+  intros Hk. destruct keys as [|ke keys].
+  - cbn [by_text app]. split; [now apply kstop_nid|split].
+    + pose proof (kstop_hd k Hk) as Hh. destruct k as [|c k']; [reflexivity|]. cbn [hdp eat] in *.
+      destruct (N.eqb_spec c 40) as [->|]; [discriminate Hh|reflexivity].
+    + unfold ptag. now rewrite (kstop_no_tag k "as" 97%N Hk eq_refl eq_refl).
+  - unfold by_text. rewrite <- !app_assoc. split; [now apply nid_ws1|split; [now apply not40_ws1|]].
+    rewrite skip_ws_nsp by (now apply Hw1 || reflexivity). reflexivity.
+Qed.
+
+Section AggGen.
+Variable I : (str * aggfn) -> str -> Prop.
+Hypothesis I_oper : forall nf t ws rest, I nf t -> agg_good nf -> forallb is_space ws = true -> aend rest ->
+  p_agg_oper (ws ++ t ++ rest) = POk (fst nf, LAgg (snd nf)) (skip_spaces rest).
+Hypothesis I_first : forall nf t R, I nf t -> agg_good nf -> nsp t /\ inline_opers (t ++ R) = PFail.
+
+Lemma aggs_more_gen rest : aend rest -> ptag "," (skip_spaces rest) = PFail ->
+  forall fns ts, Forall2 I fns ts -> Forall agg_good fns ->
+  forall fuel acc, length fns <= fuel ->
+  sep_list_more fuel (ptag ",") p_agg_oper (skip_spaces (tailt o ts ++ rest)) acc
+  = POk (rev acc ++ map (fun nf => (fst nf, LAgg (snd nf))) fns) (skip_spaces rest).
+Proof.
+  intros Hr Hc fns ts H2. induction H2 as [|nf t fns ts Hit H2 IH]; intros Hg fuel acc Hf.
+  - cbn [tailt flat_map app map]. rewrite app_nil_r. destruct fuel as [|fu]; [reflexivity|].
+    cbn [sep_list_more]. now rewrite Hc.
+  - destruct fuel as [|fu]; [cbn [length] in Hf; lia|]. cbn [length] in Hf.
+    inversion Hg as [|? ? Hg1 Hg2]; subst.
+    cbn [tailt flat_map]. fold (tailt o ts). rewrite <- !app_assoc. rewrite skip_comma.
+    cbn [sep_list_more]. unfold ptag at 1. change (lit ",") with [44%N]. cbn [strip_prefix]. rewrite N.eqb_refl.
+    rewrite (I_oper nf t (po_ws0 o) (tailt o ts ++ rest) Hit Hg1 (Hw0 o Ho) (aend_tailt ts rest Hr)).
+    rewrite IH by (assumption || lia). cbn [rev map]. now rewrite <- app_assoc.
+Qed.
+
+Lemma aggs_ok_gen rest fns ts : aend rest -> ptag "," (skip_spaces rest) = PFail ->
+  fns <> [] -> Forall2 I fns ts -> Forall agg_good fns ->
+  sep_list1 (ptag ",") p_agg_oper (sep_join (comma o) ts ++ rest)
+  = POk (map (fun nf => (fst nf, LAgg (snd nf))) fns) (skip_spaces rest).
+Proof.
+  intros Hr Hc Hne H2 Hg. destruct H2 as [|nf t fns ts Hit H2]; [congruence|].
+  inversion Hg as [|? ? Hg1 Hg2]; subst.
+  rewrite sep_join_tail, <- (app_assoc _ (tailt o ts)). unfold sep_list1.
+  pose proof (I_oper nf t [] (tailt o ts ++ rest) Hit Hg1 eq_refl (aend_tailt ts rest Hr)) as E. cbn [app] in E.
+  rewrite E. cbn [pbind].
+  rewrite (aggs_more_gen rest Hr Hc fns ts H2 Hg2); [reflexivity|].
+  rewrite (forall2_length _ _ _ H2). apply length_skip_tailt.
+Qed.
+
+Lemma agg_rt_gen fns keys ts k : kstop k -> fns <> [] -> Forall agg_good fns ->
+  forallb (fun ke => wf_expr (snd ke) && str_eqb (fst ke) (pp o 0 (snd ke))) keys = true ->
+  Forall2 I fns ts ->
+  p_oper ((sep_join (comma o) ts ++ by_text keys) ++ k)
+  = POk (LMultiAgg (map (fun nf => (fst nf, LAgg (snd nf))) fns) keys) (skip_spaces k).
+Proof.
+  intros Hk Hne Hg Hkeys H2. rewrite <- app_assoc.
+  destruct (by_ok keys k Hk Hkeys) as (r1 & Hby & Heoq & Hskip).
+  pose proof (aend_by keys k Hk) as Hend.
+  assert (Hc : ptag "," (skip_spaces (by_text keys ++ k)) = PFail).
+  { destruct keys; [now apply kstop_no_comma|]. unfold by_text. rewrite <- !app_assoc.
+    rewrite skip_ws_nsp by (now apply Hw1 || reflexivity). reflexivity. }
+  assert (Hm : p_multi_agg (sep_join (comma o) ts ++ by_text keys ++ k)
+               = POk (LMultiAgg (map (fun nf => (fst nf, LAgg (snd nf))) fns) keys) r1).
+  { rewrite p_multi_agg_unfold. rewrite (aggs_ok_gen _ fns ts Hend Hc Hne H2 Hg). cbn [pbind].
+    rewrite Hby. cbn [pbind]. rewrite Heoq. cbn [pbind]. destruct keys; reflexivity. }
+  rewrite <- Hskip.
+  destruct H2 as [|nf t fns ts Hit H2]; [congruence|].
+  inversion Hg as [|? ? Hg1 Hg2]; subst.
+  apply p_oper_agg; [| |exact Hm].
+  - rewrite sep_join_tail, <- !app_assoc. apply nsp_app. now apply (I_first nf t []).
+  - rewrite sep_join_tail, <- !app_assoc. now apply (I_first nf t).
+Qed.
+End AggGen.
 End Agg.
 
 (** * the three stage kinds together *)
